@@ -81,3 +81,10 @@ Example unclassified_read_shows_the_input_set :
   let bad := {| w_file := [120]; w_where := [121]; w_name := [122]; w_kind := WTemplateType |} in
   reads_leak [bad] = true /\ reads_leak g_wide_reads = false.
 Proof. vm_compute. split; reflexivity. Qed.
+
+(* no stale exception: every hand-written classification / review row still matches something the scanners find *)
+Theorem no_stale_rows_lemma :
+  forallb (store_class_used g_stores) store_classes = true /\ forallb (read_class_used g_wide_reads) read_classes = true /\
+  forallb (modobj_review_used g_modobjs) modobj_reviewed = true.
+Proof. vm_compute. repeat split; reflexivity. Qed.
+
